@@ -1917,6 +1917,28 @@ def m_read_until(ex, st, c):
     rest = cursor_rest(cur)
     found, idx = rest.find(bytes([delim.v])) if delim.conc else find_general(rest, as_str(ex, st, delim))
     n = rest.length()
+    K = getattr(ex, 'fork_read_until', 0)
+    if K and delim.conc and found is not False and not isinstance(idx, int):
+        # opt-in: fork on where the first delimiter is when only a few positions are undecided -- every successor then works
+        # with concrete offsets instead of a mux over them
+        f = rest.flat()
+        cand = []
+        for i in range(f.cap):
+            b = f.bs[i]
+            if isinstance(b, int):
+                if b == delim.v: cand.append(i); break
+            else: cand.append(i)
+        if len(cand) <= K:
+            alts = []
+            for i in cand:
+                cnd = b_and(found, bv_eq(idx, i, LW))
+                cnd = simp_bool(cnd) if not isinstance(cnd, bool) else cnd
+                if cnd is False: continue
+                alts.append((cnd, Ok(usize(i + 1)), ((c.args[2], buf.concat(rest.substr(0, i + 1))), (c.args[0], mk_cursor(rest.suffix_from(i + 1), 0)))))
+            nf = b_not(found)
+            if nf is not False:
+                alts.append((nf, Ok(usize(n)), ((c.args[2], buf.concat(rest)), (c.args[0], mk_cursor(SymStr(()), 0)))))
+            return ForkStore(alts)
     take = ite_bv(found, bv_add(idx, 1, LW), n, LW)
     chunk = rest.substr(0, take)
     newrest = rest.suffix_from(take)
